@@ -319,6 +319,33 @@ def explore(fn, pre=(), max_paths=512, timeout_ms=10000):
     return ex, paths
 
 
+# {{{ second-solver sampling (E3): every k-th deciding query is written out as SMT-LIB2
+# with z3's verdict; pv.common re-solves the files with cvc5 and the system z3 binary
+
+XSOLVE = {"dir": None, "every": 25, "cap": 8, "n": 0, "written": 0}
+
+
+def _xsolve_dump(solver, verdict):
+    d = XSOLVE["dir"]
+    if d is None:
+        return
+    XSOLVE["n"] += 1
+    if XSOLVE["n"] % XSOLVE["every"] != 1 or XSOLVE["written"] >= XSOLVE["cap"] or verdict == z3.unknown:
+        return
+    try:
+        txt = solver.to_smt2()
+    except Exception:  # noqa: BLE001
+        return
+    if len(txt) > 200000:
+        return
+    import os
+    XSOLVE["written"] += 1
+    with open(os.path.join(d, f"{os.getpid()}_{XSOLVE['n']}.smt2"), "w") as f:
+        f.write(f"; z3-verdict: {verdict}\n(set-logic ALL)\n{txt}")
+
+# }}}
+
+
 class Query:
     """Validity queries `pc => goal` with accounting; returns (verdict, model)."""
 
@@ -350,6 +377,7 @@ class Query:
         dt = time.perf_counter() - t0
         self.stats.queries += 1
         self.stats.solver_s += dt
+        _xsolve_dump(s, r)
         if r == z3.unsat:
             self.stats.unsat += 1
             return "unsat", None
